@@ -30,6 +30,7 @@ CORPUS = [
     [(10, 0), (18, 1), (10, 0)], [(9, 0), (18, 1), (9, 0)], [(11, 1), (18, 1), (11, 1)], [(10, 0), (18, 2), (11, 1)],
     [(0, 0), (20, 0), (16, 5), (0, 0)], [(7, 2), (20, 0), (7, 0)],
     [(13, 1), (16, 5), (13, 1)], [(13, 2), (16, 5), (13, 2)], [(13, 1), (17, 1), (13, 1)],      # exports after mutators
+    [(13, 4), (13, 3)], [(13, 1), (13, 3)], [(13, 3), (13, 4), (13, 3)], [(13, 4), (20, 0), (13, 3)],   # default export after an export to another format
     [(8, 0), (7, 0)], [(7, 0), (8, 0)], [(8, 0), (7, 0), (8, 0)],                                # classic vs Strahler memo
     [(11, 1), (11, 1)], [(11, 1), (10, 0)], [(11, 1), (11, 0), (11, 1)],                         # repeated unit conversions
     [(21, 1), (21, 0)], [(21, 1), (9, 0)], [(9, 0), (21, 2), (21, 0)], [(21, 0), (18, 1), (21, 0)], [(21, 2), (18, 0), (9, 0)],   # stream distance vs distnc memo
@@ -77,7 +78,7 @@ def cases(tier, rng):
             elif c == 11:
                 a = rng.randrange(2) if raster else 0
             elif c == 13:
-                a = rng.randrange(3) if raster else 0
+                a = rng.randrange(5) if raster else 0
             elif c == 21:
                 a = rng.choice([0, 0, 1, 2])
             elif c == 19:
@@ -186,7 +187,8 @@ def impl(case):
         if c == 13:
             if raster and arg:
                 # exports must describe the CURRENT network (nextxy always succeeds; d8 may raise on far links)
-                v = o.to_array("nextxy" if arg == 1 else "d8")
+                # arg 3: the default export (the object's own format) must not depend on earlier exports (round-5 seed)
+                v = o.to_array() if arg == 3 else o.to_array({1: "nextxy", 2: "d8", 4: "ldd"}[arg])
                 return [np.asarray(x).ravel().tolist() for x in (v if arg == 1 else [v])]
             return np.asarray(o.basins()).ravel().tolist() if raster else sorted(int(x) for x in o.idxs_pit)
         if c == 21:
@@ -199,10 +201,10 @@ def impl(case):
     for c, arg in ops:
         flag = 1
         if c <= 15 or c == 21:
-            st, v = call_impl(query, obj, c, arg, timeout=2)
+            st, v = call_impl(query, obj, c, arg, timeout=5)
             # the reference object always caches: a result may depend neither on the history nor on the cache setting
             fresh = build(np.asarray(obj.idxs_ds).copy(), obj.transform if raster else None, getattr(obj, "latlon", False), True)
-            st2, v2 = call_impl(query, fresh, c, arg, timeout=2)
+            st2, v2 = call_impl(query, fresh, c, arg, timeout=5)
             if st != st2 or (st == "ok" and not _same(v, v2)):
                 flag = 0
                 out.append(occ(obj) + [flag])
